@@ -43,7 +43,14 @@ pub type DiplomatByte = u8;
 /// - The allocated buffer must be freed with [`diplomat_free()`].
 #[no_mangle]
 pub unsafe extern "C" fn diplomat_alloc(size: usize, align: usize) -> *mut u8 {
-    alloc::alloc::alloc(Layout::from_size_align(size, align).unwrap())
+    let layout = Layout::from_size_align(size, align).unwrap();
+    if layout.size() == 0 {
+        // The global allocator must not be asked for zero bytes. Empty buffers (e.g. for "" or [])
+        // are represented by a well-aligned dangling pointer, like the ones of empty boxes and vectors;
+        // diplomat_free() knows not to release them.
+        return core::ptr::null_mut::<u8>().wrapping_add(layout.align());
+    }
+    alloc::alloc::alloc(layout)
 }
 
 /// Frees a buffer that was allocated in Rust's memory.
@@ -51,7 +58,12 @@ pub unsafe extern "C" fn diplomat_alloc(size: usize, align: usize) -> *mut u8 {
 /// - `ptr` must be a pointer to a valid buffer allocated by [`diplomat_alloc()`].
 #[no_mangle]
 pub unsafe extern "C" fn diplomat_free(ptr: *mut u8, size: usize, align: usize) {
-    alloc::alloc::dealloc(ptr, Layout::from_size_align(size, align).unwrap())
+    let layout = Layout::from_size_align(size, align).unwrap();
+    if layout.size() == 0 {
+        // Nothing was allocated for an empty buffer, see diplomat_alloc()
+        return;
+    }
+    alloc::alloc::dealloc(ptr, layout)
 }
 
 /// Whether a `&[u8]` is a `&str`
